@@ -52,25 +52,21 @@ impl SchemaConverter {
 
         // Emit aliases (enums)
         for (name, def_schema) in &alias_defs {
-            let prefixed = format!("{}{}", self.type_prefix, name);
+            let prefixed = self.type_name(name);
             self.emit_definition(&walker, &mut emitter, &prefixed, def_schema);
             emitter.blank_line();
         }
 
         // Emit classes from $defs
         for (name, def_schema) in &class_defs {
-            let prefixed = format!("{}{}", self.type_prefix, name);
+            let prefixed = self.type_name(name);
             self.emit_definition(&walker, &mut emitter, &prefixed, def_schema);
             emitter.blank_line();
         }
 
         // Emit the root schema itself, so that the reported root type is always declared:
         // a class when it has properties, otherwise whatever kind of definition it is.
-        let root_type_name = format!(
-            "{}{}",
-            self.type_prefix,
-            walker.root_title().unwrap_or("root")
-        );
+        let root_type_name = self.type_name(walker.root_title().unwrap_or("root"));
         let root = walker.root_schema();
         if root.get("properties").is_some() {
             self.emit_object_class(&walker, &mut emitter, &root_type_name, root);
@@ -92,6 +88,11 @@ impl SchemaConverter {
     }
 
     // ── Internal helpers ──────────────────────────────────────────────
+
+    /// The emitted type name for a schema name (title, `$defs` key or `$ref` target).
+    fn type_name(&self, name: &str) -> String {
+        sanitize_type_name(&format!("{}{}", self.type_prefix, name))
+    }
 
     /// Check if a schema definition is an enum/alias (not an object class).
     fn is_enum_or_alias(&self, schema: &Value) -> bool {
@@ -320,7 +321,7 @@ impl SchemaConverter {
         // $ref → type name with prefix
         if let Some(ref_str) = schema.get("$ref").and_then(|v| v.as_str()) {
             let name = SchemaWalker::ref_type_name(ref_str).unwrap_or("any");
-            return format!("{}{}", self.type_prefix, name);
+            return self.type_name(name);
         }
 
         // anyOf → union type (excluding null)
@@ -434,6 +435,26 @@ impl SchemaConverter {
             _ => "any".to_string(),
         }
     }
+}
+
+/// Turn an arbitrary schema name into a valid EmmyLua type name. Letters, digits and `_` are
+/// kept, `.` and `-` are kept between two such characters, everything else (spaces, quotes,
+/// line breaks, ...) becomes `_`, so that the name is one token of the annotation syntax.
+fn sanitize_type_name(raw: &str) -> String {
+    let is_word = |c: char| c.is_alphanumeric() || c == '_';
+    let chars: Vec<char> = raw.chars().collect();
+    let mut name = String::with_capacity(raw.len());
+    for (i, &c) in chars.iter().enumerate() {
+        let joins_words = (c == '.' || c == '-')
+            && i > 0
+            && is_word(chars[i - 1])
+            && chars.get(i + 1).is_some_and(|next| is_word(*next));
+        name.push(if is_word(c) || joins_words { c } else { '_' });
+    }
+    if !name.starts_with(|c: char| c.is_alphabetic() || c == '_') {
+        name.insert(0, '_');
+    }
+    name
 }
 
 impl Default for SchemaConverter {
